@@ -720,7 +720,7 @@ theorem offset_minutes_eq (colons : Format.Colons) (zulu : Bool) (off : Int)
       else Format.wok ((if off < 0 then 45 else 43) ::
         (two (((if off < 0 then -off else off) + 30) / 60 / 60).toNat ++ colonText colons ++
          two (((if off < 0 then -off else off) + 30) / 60 % 60).toNat)) := by
-  unfold Format.OffsetFormat.format
+  unfold Format.OffsetFormat.format Format.offsetParts Format.hoursText Format.tailText
   by_cases hz : zulu = true ∧ off = 0
   · rw [if_pos hz, if_pos hz]
   · rw [if_neg hz, if_neg hz]
